@@ -2,7 +2,7 @@
 
 Audit hooks cannot be removed, so one hook is installed per process and gated by a flag; while the
 gate is open every 'open' and 'urllib.Request' event is appended to the current log.  The stub opener
-answers http/https/ftp from an in-memory table (no socket is ever created) and file: URLs through the
+answers http/https/ftp and the made-up scheme mem from an in-memory table (no socket is ever created) and file: URLs through the
 standard FileHandler; it is meant to be passed as opener= and installed with install_opener().
 """
 import email
@@ -75,7 +75,8 @@ class StubHandler(urllib.request.BaseHandler):
         headers = email.message_from_string('Content-Type: text/xml\nContent-Length: %d\n\n' % len(body))
         return urllib.response.addinfourl(io.BytesIO(body), headers, url, 200)
 
-    http_open = https_open = ftp_open = _serve
+    # 'mem' stands for any non-file scheme; it is also used without an authority part (mem:x, mem:/d/x)
+    http_open = https_open = ftp_open = mem_open = _serve
 
 
 def make_opener():
